@@ -42,6 +42,7 @@ func newInterp(w *Worker) *Interp {
 		asserts:  map[string]int{},
 		funcsHit: map[*ssa.Function]struct{}{},
 		opaque:   map[string]*Term{},
+		varBound: map[int32]uint64{},
 		swBudget: w.cfg.SwitchBudget,
 	}
 	if w.intrCache != nil {
